@@ -60,6 +60,14 @@ def junk():
         'Hostile(hash)': Hostile('hash'), 'Hostile(eq)': Hostile('eq'), 'Hostile(repr)': Hostile('repr'), 'HostileClass': HostileClass,
         'None': None, 'b"x"': b'x', '(int, [])': (int, []), "'sys.modules'": 'sys.modules', "'int'": 'int', "''": '', 'True': True,
         'NotImplemented': NotImplemented, 'object()': object(),
+        # string hints that are valid expressions over resolvable names but whose evaluation fails in some other way
+        "'{}[1]'": '{}[1]', "'[][0]'": '[][0]', "'1/0'": '1/0', "'int(chr(65))'": 'int(chr(65))', "'next(iter(()))'": 'next(iter(()))',
+        "'len()'": 'len()', "'None.attr'": 'None.attr', "'chr(-1)'": 'chr(-1)', "'(lambda f: f(f))(lambda f: f(f))'": '(lambda f: f(f))(lambda f: f(f))',
+        "'int[str]'": 'int[str]', "'list[int'": 'list[int', "'[].pop()'": '[].pop()',
+        # type variables whose constraints / bound are (unresolvable or resolvable) forward references
+        "TypeVar(int,'Fwd')": typing.TypeVar('TFc', int, 'C11Fwd'), "TypeVar(bound='Fwd')": typing.TypeVar('TFb', bound='C11Fwd'),
+        "TypeVar(int,'int')": typing.TypeVar('TFi', int, 'int'), "TypeVar(bound='int|None')": typing.TypeVar('TFn', bound='int | None'),
+        "TypeVar('str','Fwd')": typing.TypeVar('TFs', 'str', 'C11Fwd'),
     }
 
 
@@ -149,6 +157,11 @@ def probe_hint(label, h, confs, part):
                 fam = 'unhashable-annotated-root:' + label if _re.match(r'^Annotated\[int, ', label) or label.startswith('bare ') and '(int, [])' not in label \
                     else 'unhashable-argument-of-subscripted-hint'
                 viol.append((f'leak:{fam}:{entry}', f'{entry} given the hint {label}: {why}: {str(exc)[:160]}', {'hint': label, 'entry': entry}))
+                return
+            import re as _re
+            if phase == 'decorate' and fam == 'BeartypeCallHintPep484ForwardRefStrException' and _re.match(r"^[Tt]ype\[TypeVar\(", label):
+                viol.append((f'leak:decoration-resolves-forward-reference-eagerly:type[TypeVar-over-unresolvable-reference]:{entry}',
+                             f'{entry} given the hint {label}: {why}: {str(exc)[:160]}', {'hint': label, 'entry': entry}))
                 return
             viol.append((f'leak:{entry}:{fam}:{_family(label)}', f'{entry} given the hint {label}: {why}: {str(exc)[:160]}', {'hint': label, 'entry': entry}))
 
